@@ -9,18 +9,10 @@ from sa.poly import RF
 from sa.selftest import Edit, Variant
 from sa.sym import ClassRef, Rec, explore, method_of, to_rf
 
-EXPLANATION = (
-    "Byte equality of two runs depends on float formatting and Skia and is not decidable statically. Decided, each necessary for a fixed "
-    "point: (1) no stage that deletes shape elements follows the last group pruning / orphan-gradient removal (fails today: known finding "
-    "F5); (2) round_floats is the last writer of numbers - no geometry- or opacity-producing stage after it, normalize_opacity and absolute "
-    "before it, emptiness/paintedness judged after it - and it rounds every path number unconditionally and every float field; clipPath "
-    "subtrees are deleted inside the leaves-first walk, i.e. before the keep/flatten decision of their parent group and before orphan "
-    "removal; (3) gradient parameters are rounded with one constant and decompose_translation of an already translation-free matrix returns "
-    "(identity, self), so re-normalising a normalised gradient is a no-op; (4) generated ids are only allocated for transformed-gradient "
-    "clones and nested-svg clips, constructs that a converted document no longer contains; (5) the gate is on every normal return and "
-    "checkpicosvg does not modify the tree unless drop_unsupported is set."
-)
-ASSUMPTIONS = ["re-parsing a printed number yields the same float (CPython), lxml re-serialises attributes in the same order"]
+from sa.texts import T as _T
+
+EXPLANATION = _T["C07"]["explanation"] + " Not decided: " + _T["C07"]["not_decided"] + "."
+ASSUMPTIONS = _T["C07"]["assumptions"]
 P = "C07"
 S = RF.sym
 
